@@ -524,7 +524,10 @@ def check_lex(ctx, cases, tag):
         if ok and expect["res"] == "err":
             ok = got["detail"] == expect["detail"] and any(expect["msg"] in x for x in got["msgs"])
         if not ok:
-            ctx.violation("number lexing: `%s` is not read as %r followed by %r" % (c["prog"][:80], c["lexeme"], c["rest"]),
+            what = ("number lexing: `%s` does not behave as Number %r followed by %r" % (c["prog"][:80], c["lexeme"], c["rest"])
+                    if out[0] != "num" else
+                    "the literal in `%s` does not print as the double nearest to it prints" % c["prog"][:80])
+            ctx.violation(what,
                           kind="lex", progs=[c], input=c["prog"], expected=expect, actual=got)
         if c["kind"] not in ("end", "exp"):
             nontriv.add(c["prog"])
